@@ -25,7 +25,7 @@ def run_cf(sig, o, **override):
     from bycycle.features import compute_features
     kw = S.call_kwargs(o)
     kw.update(override)
-    return compute_features(np.array(sig, dtype=float), o['fs'], o['f_range'], **kw)
+    return compute_features(sig if o.get('layout', 'plain') != 'plain' else np.array(sig, dtype=float), o['fs'], o['f_range'], **kw)
 
 
 def side_of(centre):
